@@ -23,7 +23,7 @@ class C08(Check):
                    'repeated interior knots have multiplicity <= order-1 (spline stays continuous); for order 1 a point on an '
                    'interior knot may take either neighbouring coefficient',
                    'everyn with nx//everyn < 2 is the open finding everyn_single_breakpoint (see known_findings.json)']
-    REQUIRED_COUNTERS = ('nan_evaluations_with_outside_points_above_only', 'caller_breakpoint_array_reused_afterwards_order1', 'value_with_precomputed_action', 'mask_changed_on_evaluated_object', 'knots_through_iterfit_unsorted_data', 'canary_sequences', 'single_point_evaluations', 'presorted_evaluations', 'opt_bkspace', 'opt_nbkpts', 'opt_everyn', 'opt_placed', 'opt_bkpt', 'not_cover_adjusted',
+    REQUIRED_COUNTERS = ('bkspace_divides_the_range_exactly', 'nan_evaluations_with_outside_points_above_only', 'caller_breakpoint_array_reused_afterwards_order1', 'value_with_precomputed_action', 'mask_changed_on_evaluated_object', 'knots_through_iterfit_unsorted_data', 'canary_sequences', 'single_point_evaluations', 'presorted_evaluations', 'opt_bkspace', 'opt_nbkpts', 'opt_everyn', 'opt_placed', 'opt_bkpt', 'not_cover_adjusted',
                          'points_compared_inside', 'points_outside_checked', 'unsorted_inputs', 'float32_inputs',
                          'scipy_agreements')
     CASE_CPU_S = 60
@@ -82,6 +82,15 @@ class C08(Check):
             val = rngx / rng.uniform(1.0, nx / 2 + 1)
             if rng.random() < 0.15:
                 val = rngx * rng.choice([1.0, 2.0, 1.0000001, 0.5])
+            elif rng.random() < 0.2:
+                # a round spacing that divides a round data range (0.4 in 10, 0.3 in 12, 1.2 in 6 ...): the spacing asked for is the
+                # spacing obtained
+                R, val = rng.choice([(10, 0.1), (10, 0.2), (10, 0.4), (10, 0.5), (10, 2.5), (12, 0.3), (6, 1.2), (30, 0.6), (1, 0.1), (1, 0.05),
+                                     (3, 0.3), (7, 0.7), (9, 0.9), (100, 0.8), (20, 0.4), (5, 0.2), (2, 0.4), (60, 1.2), (36, 0.3)])
+                a0 = rng.choice([0.0, 0.0, 100.0, -5.0])
+                x = (a0 + np.concatenate([[0.0, float(R)], g.uniform(0, R, max(3, nx - 2))])).astype(dt)
+                if srt:
+                    x = np.sort(x)
         elif opt == 'nbkpts':
             val = rng.randint(1, max(3, nx // 2))
         elif opt == 'everyn':
@@ -190,6 +199,14 @@ class C08(Check):
             out.expect(abs(t[k - 1] - xmin) <= tol and abs(t[n] - xmax) <= tol, 'padding',
                        'computed breakpoints must start/end at the data extremes with k-1 extra knots outside: '
                        't[k-1]=%r xmin=%r t[n]=%r xmax=%r' % (t[k - 1], xmin, t[n], xmax), knots=t)
+        if opt == 'bkspace' and xmax > xmin and case['xdtype'] == 'f8':     # (single-precision data: the quotient is formed in single precision)
+            q = (xmax - xmin) / float(case['optval'])
+            if q >= 1 and abs(q - round(q)) <= 1e-12 * q:
+                # the spacing divides the data range: exactly round(q)+1 breakpoints, that spacing apart
+                nb = nt - 2 * (k - 1)
+                out.expect(nb == int(round(q)) + 1, 'knots', 'bkspace=%r divides the data range %r exactly %d times, yet %d breakpoints were placed '
+                           '(spacing %r)' % (case['optval'], xmax - xmin, int(round(q)), nb, float(t[k] - t[k - 1])), knots=t[:8])
+                out.count('bkspace_divides_the_range_exactly')
         if out.fails:
             return
         # ---- the same breakpoint option through the other public entry point: iterfit builds its spline set from the good points in
